@@ -21,10 +21,11 @@ pub enum PKind {
     Typed(char, usize),
     Untyped,
     Reg,
+    Cc,
 }
 
 fn t(p: &str, e: &str, params: &[PKind]) -> Template {
-    Template { rule: RuleSrc::new(p, e), params: params.to_vec(), needs_reg: params.contains(&PKind::Reg) }
+    Template { rule: RuleSrc::new(p, e), params: params.to_vec(), needs_reg: params.contains(&PKind::Reg) || params.contains(&PKind::Cc) }
 }
 
 pub fn pool() -> Vec<Template> {
@@ -57,7 +58,13 @@ pub fn pool() -> Vec<Template> {
         t("ld {x: u8}, a", "0x18 @ x", &[Typed('u', 8)]),
         t("ld {x: s3}", "0b10101 @ x", &[Typed('s', 3)]),
         t("ld {x}[{y: u8}]", "0x19 @ x[15:8] @ y", &[Untyped, Typed('u', 8)]),
+        // same literal-character count as `ld.b {x}` once the nested `b` is counted; indexed under a shorter prefix
+        t("ld.{c: cc} {x: u8}", "0x2 @ c @ x", &[Cc, Typed('u', 8)]),
     ]
+}
+
+pub fn cc_def() -> RuleDefSrc {
+    RuleDefSrc { name: Some("cc".into()), sub: true, rules: vec![RuleSrc::new("b", "0x1"), RuleSrc::new("w", "0x2")] }
 }
 
 pub fn reg_def() -> RuleDefSrc {
@@ -67,6 +74,7 @@ pub fn reg_def() -> RuleDefSrc {
 fn operand_texts(k: PKind, full: bool) -> Vec<String> {
     match k {
         PKind::Reg => vec!["r0".into(), "r1".into(), "r10".into(), "r2".into(), "R1".into(), "a".into()],
+        PKind::Cc => vec!["b".into(), "w".into(), "q".into()],
         PKind::Untyped => {
             let mut v: Vec<String> = vec!["5".into(), "0x1234".into(), "-1".into(), "(1 + 1)".into(), "A".into(), "B".into(), "k".into(), "undef".into(), "a".into(), "$".into()];
             if full {
@@ -149,6 +157,7 @@ pub fn f1_prog_blocks(rules: &[&Template], line: &str, split: bool) -> Prog {
     let mut ruledefs = vec![];
     if rules.iter().any(|r| r.needs_reg) {
         ruledefs.push(reg_def());
+        ruledefs.push(cc_def());
     }
     if split {
         for (i, r) in rules.iter().enumerate() {
@@ -307,7 +316,7 @@ pub fn f2_prog(seq: &[usize], items: &[Item], banked: bool) -> Prog {
 pub fn run(ctx: &Ctx) -> Report {
     let mut rep = Report::new(
         "model_checking",
-        "F1: every rule set of 1..k templates from a 27-template pool (prefix-sharing mnemonics, literal/typed/untyped/sub-rule operands, wrappers, glued and suffix literals, tie and smallest-wins pairs, slices, le(), $-relative) x every line of the whole pool (every range boundary, labels before/after, constant, undefined name) + malformed lines; F2: fixed 8-rule set x all item sequences up to a length (labels global/nested, constants, data of several widths, #res/#align/#addr, two banks); each compared (success, bits, symbol values) with the reference assembler. Non-trivial = the reference defines the outcome and the program emits >=1 item or is rejected by the rules; distinct by program text.",
+        "F1: every rule set of 1..k templates from a 28-template pool (prefix-sharing mnemonics, literal/typed/untyped/sub-rule operands, wrappers, glued and suffix literals, tie and smallest-wins pairs, slices, le(), $-relative) x every line of the whole pool (every range boundary, labels before/after, constant, undefined name) + malformed lines; F2: fixed 8-rule set x all item sequences up to a length (labels global/nested, constants, data of several widths, #res/#align/#addr, two banks); each compared (success, bits, symbol values) with the reference assembler. Non-trivial = the reference defines the outcome and the program emits >=1 item or is rejected by the rules; distinct by program text.",
     );
     let pool = pool();
     let opts = Opts::iters(30);
